@@ -353,12 +353,18 @@ class CFG:
         while st:
             n = st.pop()
             for s in self.succ[n]:
-                if s in prev:
+                if s in prev and s is not dst:
                     continue
                 if avoid_edge is not None and \
                         avoid_edge(n, s, self.label.get((n, s), set())):
                     continue
                 if s is dst:
+                    if s in prev:
+                        # a cycle back to the source
+                        out = [s, n]
+                        while prev[out[-1]] is not None:
+                            out.append(prev[out[-1]])
+                        return list(reversed(out))
                     prev[s] = n
                     out = [s]
                     while prev[out[-1]] is not None:
